@@ -129,10 +129,20 @@ def r10(ctx: Ctx):
              if isinstance(a, ast.Name) and a.id in made and made[a.id] is not call]
       for a in fed:
         n += 1
+        # plain local copies (`upstream = a`, `out = b`) name the same queues
+        def copies(name):
+          same = {name}
+          for _ in range(2):
+            for y in walk_no_nested(fi.node):
+              if isinstance(y, ast.Assign) and len(y.targets) == 1 and isinstance(y.targets[0], ast.Name) and isinstance(y.value, ast.Name) \
+                  and y.value.id in same:
+                same.add(y.targets[0].id)
+          return same
+        a_names, b_names = copies(a), (copies(bname) if bname is not None else set())
         linked = bname is not None and any(
             isinstance(c, ast.Call) and isinstance(c.func, ast.Attribute) and c.func.attr in links
-            and isinstance(c.func.value, ast.Name) and c.func.value.id == bname and any(
-                isinstance(y, ast.Name) and y.id == a for y in c.args)
+            and isinstance(c.func.value, ast.Name) and c.func.value.id in b_names and any(
+                isinstance(y, ast.Name) and y.id in a_names for y in c.args)
             for c in walk_no_nested(fi.node))
         if linked:
           ctx.ok(rule, fi, f'{fi.name}: the queue fed from `{a}` stops `{a}` with itself', call)
